@@ -1,1 +1,133 @@
-/-! C20 — property theorems (none yet). -/
+import Req.Client.Auth
+import Req.Client.Digest
+import Req.Client.Rfc7616
+import Req.Lemmas.C20Base64
+/-!
+C20 — authentication headers are computed correctly: property theorems.
+
+Part 1 (this section): basic and bearer credentials.
+-/
+namespace Req.Props.C20
+open Req.Proto
+
+/-! ## base64 -/
+
+section b64
+open Req.Base64
+
+/-- **base64_roundtrip**: the (strict) decoder of a server recovers every byte string from what
+`base64.StdEncoding.EncodeToString` produced — all lengths, all byte values. -/
+theorem base64_roundtrip : ∀ bs : Bytes, decode (encode bs) = some bs := by
+  intro bs
+  fun_induction encode bs with
+  | case1 => rfl
+  | case2 a =>
+    have ha : a.toNat < 256 := UInt8.toNat_lt a
+    have h0 : a.toNat / 4 < 64 := by omega
+    have h1 : a.toNat % 4 * 16 < 64 := by omega
+    have h2 : a.toNat % 4 * 16 % 16 = 0 := by omega
+    simp [-UInt8.ofNat_add, -UInt8.ofNat_mul, decode, value_alpha _ h0, value_alpha _ h1, h2, pad]
+    apply ofNat_eq; omega
+  | case3 a b =>
+    have ha : a.toNat < 256 := UInt8.toNat_lt a
+    have hb : b.toNat < 256 := UInt8.toNat_lt b
+    have h0 : a.toNat / 4 < 64 := by omega
+    have h1 : a.toNat % 4 * 16 + b.toNat / 16 < 64 := by omega
+    have h2 : b.toNat % 16 * 4 < 64 := by omega
+    have h3 : b.toNat % 16 * 4 % 4 = 0 := by omega
+    have hp : (alpha (b.toNat % 16 * 4) == pad) = false := alpha_ne_pad _ h2
+    have hp' : (alpha (b.toNat % 16 * 4) == (61 : UInt8)) = false := hp
+    simp [-UInt8.ofNat_add, -UInt8.ofNat_mul, decode, value_alpha _ h0, value_alpha _ h1, value_alpha _ h2, h3, byte1, pad, hp']
+    apply ofNat_eq; omega
+  | case4 a b c rest ih =>
+    have ha : a.toNat < 256 := UInt8.toNat_lt a
+    have hb : b.toNat < 256 := UInt8.toNat_lt b
+    have hc : c.toNat < 256 := UInt8.toNat_lt c
+    have h0 : a.toNat / 4 < 64 := by omega
+    have h1 : a.toNat % 4 * 16 + b.toNat / 16 < 64 := by omega
+    have h2 : b.toNat % 16 * 4 + c.toNat / 64 < 64 := by omega
+    have h3 : c.toNat % 64 < 64 := by omega
+    have hp : (alpha (c.toNat % 64) == pad) = false := alpha_ne_pad _ h3
+    simp [-UInt8.ofNat_add, -UInt8.ofNat_mul, decode, value_alpha _ h0, value_alpha _ h1, value_alpha _ h2, value_alpha _ h3, hp, ih,
+      quad, byte1]
+    constructor <;> (apply ofNat_eq; omega)
+
+/-- non-vacuity: `"hi?"`, `"hi"`, `"h"` (all three padding cases). -/
+example : encode [104, 105, 63] = [97, 71, 107, 47] ∧ encode [104, 105] = [97, 71, 107, 61] ∧
+    encode [104] = [97, 65, 61, 61] := by decide
+
+end b64
+
+/-! ## Basic and Bearer -/
+
+section basic
+open Req.Auth
+
+theorem cutColon_append (u p : Bytes) (h : colon ∉ u) : cutColon (u ++ colon :: p) = some (u, p) := by
+  induction u with
+  | nil => simp [cutColon]
+  | cons c cs ih =>
+    have hc : (c == colon) = false := by
+      simp only [beq_eq_false_iff_ne, ne_eq]
+      intro e; exact h (e ▸ List.mem_cons_self)
+    have hcs : colon ∉ cs := fun m => h (List.mem_cons_of_mem _ m)
+    simp [cutColon, hc, ih hcs]
+
+/-- **basic_roundtrip**: for EVERY user-id without a colon and EVERY password (any bytes, empty,
+any length) the origin recovers exactly `(user, password)` from the header value produced by
+`BasicAuthHeaderValue`. The colon restriction is RFC 7617's own ("a user-id containing a colon
+character is invalid"). -/
+theorem basic_roundtrip (u p : Bytes) (h : colon ∉ u) : serverBasic (basic u p) = some (u, p) := by
+  have ht : (basic u p).take 6 = basicPrefix := rfl
+  have hd : (basic u p).drop 6 = Req.Base64.encode (u ++ colon :: p) := rfl
+  have hf : Req.Ascii.equalFold basicPrefix basicPrefix = true := by decide
+  simp only [serverBasic, ht, hd, hf, if_true, base64_roundtrip, cutColon_append u p h]
+
+/-- The excluded point: with a colon in the user-id the split moves — `("a:b", "c")` is
+received as `("a", "b:c")`. No encoding could avoid it: the scheme has no escape for `:`. -/
+theorem basic_colon_excluded :
+    serverBasic (basic [97, 58, 98] [99]) = some ([97], [98, 58, 99]) := by decide
+
+/-- Even then nothing is lost: the origin always recovers `user ++ ":" ++ password`. -/
+theorem basic_joined (u p : Bytes) :
+    ∃ u' p', serverBasic (basic u p) = some (u', p') ∧ u' ++ colon :: p' = u ++ colon :: p := by
+  have ht : (basic u p).take 6 = basicPrefix := rfl
+  have hd : (basic u p).drop 6 = Req.Base64.encode (u ++ colon :: p) := rfl
+  have hf : Req.Ascii.equalFold basicPrefix basicPrefix = true := by decide
+  have key : ∀ s : Bytes, colon ∈ s → ∃ u' p', cutColon s = some (u', p') ∧ u' ++ colon :: p' = s := by
+    intro s
+    induction s with
+    | nil => intro m; cases m
+    | cons c cs ih =>
+      intro m
+      by_cases hc : c = colon
+      · exact ⟨[], cs, by simp [cutColon, hc], by simp [hc]⟩
+      · have m' : colon ∈ cs := by
+          cases m with
+          | head => exact absurd rfl hc
+          | tail _ m' => exact m'
+        obtain ⟨u', p', h1, h2⟩ := ih m'
+        refine ⟨c :: u', p', ?_, by simp [h2]⟩
+        have : (c == colon) = false := by simp [hc]
+        simp [cutColon, this, h1]
+  obtain ⟨u', p', h1, h2⟩ := key (u ++ colon :: p) (by simp)
+  exact ⟨u', p', by simp only [serverBasic, ht, hd, hf, if_true, base64_roundtrip, h1], h2⟩
+
+/-- non-vacuity: `Aladdin` / `open sesame` (RFC 7617 section 2) gives `QWxhZGRpbjpvcGVuIHNlc2FtZQ==`. -/
+example : basic [65, 108, 97, 100, 100, 105, 110] [111, 112, 101, 110, 32, 115, 101, 115, 97, 109, 101] =
+    basicPrefix ++ [81, 87, 120, 104, 90, 71, 82, 112, 98, 106, 112, 118, 99, 71, 86, 117, 73, 72, 78, 108,
+      99, 50, 70, 116, 90, 81, 61, 61] := by decide
+
+/-- **bearer_exact**: the origin recovers exactly the token, for every byte string. -/
+theorem bearer_exact (t : Bytes) : serverBearer (bearer t) = some t := by
+  have ht : (bearer t).take 7 = bearerPrefix := rfl
+  have hd : (bearer t).drop 7 = t := rfl
+  have hf : Req.Ascii.equalFold bearerPrefix bearerPrefix = true := by decide
+  simp only [serverBearer, ht, hd, hf, if_true]
+
+example : serverBearer (bearer [116, 111, 107, 58, 32, 195, 169]) = some [116, 111, 107, 58, 32, 195, 169] := by
+  decide
+
+end basic
+
+end Req.Props.C20
